@@ -402,7 +402,7 @@ def CYCLES3(K=0, horizon=7, ops=None):
     '''A machine whose cycle time depends on the part in hand (the cycle_time getter is overridden: parts of low quality
     take three times as long) and one-shot offsets requested from outside at any moment, also shortly before a failure.'''
     wo = {'x': [1, 1.5, 3]}
-    devs = [src('S', 1, qualities=[1, 0.25, 0.75, 0]), proc('M1', ['S'], 1, wo=wo, slow=3, auto_repair='x'), sink('K', ['M1']), maint(1)]
+    devs = [src('S', 1, qualities=[1, 0.25, 0.75, 0]), proc('M1', ['S'], 1, wo=wo, slow=3, auto_repair='x', pre_offset=0.5), sink('K', ['M1']), maint(1)]
     if ops is None:
         ops = [('offset', 'M1', 0.5), ('offset', 'M1', -0.5), ('fail', 'M1', 0), ('shutdown', 'M1'), ('restore', 'M1')]
     return spec(f'CYCLES3[K{K}]', devs, horizon, ops, K)
@@ -652,7 +652,7 @@ def cms(name, sensors):
 
 
 def SENS(K=0, horizon=5, interval=1, cap=2, n=1, ocap=None, callbacks=2, cms_twice=True, second=None, ops=None,
-         placeholder=None, two_cms=False, same_name=False, post_dq=None, burst=False):
+         placeholder=None, two_cms=False, same_name=False, post_dq=None, burst=False, manual=False, late_cb=False):
     '''A processor under an output-part sensor, periodic sensors on a mutable object, a CMS.'''
     wo = {'x': [1, 1, 0]}
     devs = [src('S', 1, qualities=[1, 0.5, 0.25, 0.75], values=[1, 2, 3]), proc('M1', ['S'], 1, wo=wo, dq=-0.25, auto_repair='x'),
@@ -676,12 +676,16 @@ def SENS(K=0, horizon=5, interval=1, cap=2, n=1, ocap=None, callbacks=2, cms_twi
             devs[-1]['asset_name'] = 'P'        # a different sensor that carries the same user-given name
         names.append('P2')
     devs.append(cms('C', names))
+    if late_cb:
+        devs[-1]['late_callbacks'] = {'O': 1, 'P': 1}
     if two_cms:
         devs.append(cms('Cb', ['O']))           # a second CMS watching only ONE of the sensors the first one watches
     if ops is None:
         ops = [('bump', 'o1'), ('fail', 'M1', 0), ('wo', 'M1', 'x'), ('restore', 'M1'), ('addsensor', 'C', 'P')]
+        if manual:
+            ops = [('sense', 'O'), ('fail', 'M1', 0), ('restore', 'M1')]
     nm = (f'SENS[i{interval},c{cap},n{n},oc{ocap},cb{callbacks}{",2nd" + str(second) if second else ""}'
-          f'{",ph=" + placeholder if placeholder else ""}{",2cms" if two_cms else ""}{",samename" if same_name else ""}{",post" if post_dq is not None else ""}{",burst" if burst else ""},K{K}]')
+          f'{",ph=" + placeholder if placeholder else ""}{",2cms" if two_cms else ""}{",samename" if same_name else ""}{",post" if post_dq is not None else ""}{",burst" if burst else ""}{",manual" if manual else ""}{",latecb" if late_cb else ""},K{K}]')
     return spec(nm, devs, horizon, ops, K)
 
 
